@@ -5,6 +5,10 @@
 set -u
 WT=$1; M=$2; DEST=$3; PKG=$4; T=$5
 export RUSTUP_TOOLCHAIN=stable-x86_64-unknown-linux-gnu CARGO_NET_OFFLINE=true
+# CONFIRM_TARGET=<dir>: one build directory shared by successive worktrees (saves disk); each worktree
+# must then be confirmed in one contiguous block and never revisited (artifacts of lib+cdylib crates
+# carry no hash in their file name)
+[ -n "${CONFIRM_TARGET:-}" ] && export CARGO_TARGET_DIR=$CONFIRM_TARGET
 cd "$WT" || exit 9
 git checkout -q -- . ; git clean -fdq -- examples packages; rm -f "$DEST"
 git apply "$M/patch.diff" || { echo "patch does not apply" > "$M/confirm.txt"; exit 1; }
@@ -12,10 +16,10 @@ SUITE=$(cargo test --workspace --no-fail-fast --offline 2>&1 | grep -E "^test re
 if [ -f "$M/demo.diff" ]; then
   # demonstration delivered as a diff that appends tests to an in-crate test module; $T is the test filter
   git apply "$M/demo.diff" || { echo "demo.diff does not apply" > "$M/confirm.txt"; exit 1; }
-  cargo test -p "$PKG" --lib "$T" --offline > "$M/demo_with.log" 2>&1; RC_WITH=$?
+  cargo test -p "$PKG" "$T" --offline > "$M/demo_with.log" 2>&1; RC_WITH=$?
   git checkout -q -- . ; git clean -fdq -- examples packages; git apply "$M/demo.diff"
-  cargo test -p "$PKG" --lib "$T" --offline > "$M/demo_without.log" 2>&1; RC_WITHOUT=$?
-  grep -q "running 0 tests" "$M/demo_without.log" && ! grep -q "running [1-9]" "$M/demo_without.log" && RC_WITHOUT=77
+  cargo test -p "$PKG" "$T" --offline > "$M/demo_without.log" 2>&1; RC_WITHOUT=$?
+  grep -q "running [1-9]" "$M/demo_without.log" || RC_WITHOUT=77
   git checkout -q -- . ; git clean -fdq -- examples packages
 else
 mkdir -p "$(dirname "$DEST")"; cp "$M/demo.rs" "$DEST"
